@@ -66,10 +66,14 @@ Pairs(mod) ==
     [] mod \in {"F","I"} -> << <<"A","A","A">>, <<"B","B","B">> >>
     [] mod = "X"  -> << <<"B","A","B">>, <<"A","B","A">> >>
 
+\* The product of two fields reduced into the core.  TLC evaluates integers in 32 bits, so the trace specifications override this
+\* definition (cfg: MulMod <- MulModTLC) with a shift-and-add evaluation of the same function for cores above 46 340 cells.
+MulMod(y, x, M) == (y * x) % M
+
 Arith(op, x, y, M) ==   \* y op x   (IRB op IRA); DIV/MOD only called with x # 0
   CASE op = "ADD" -> (y + x) % M
     [] op = "SUB" -> (y + M - x) % M
-    [] op = "MUL" -> (y * x) % M
+    [] op = "MUL" -> MulMod(y, x, M)
     [] op = "DIV" -> y \div x
     [] op = "MOD" -> y % x
 
